@@ -524,3 +524,21 @@ func verifReplayMain(path, out string) error {
 
 // VerifEntriesFor exports the alphabet for harnesses in other packages.
 func VerifEntriesFor(in *VInst, full bool) []VEntry { return vEntriesFor(in, full) }
+
+// VerifClientAlphabet exports the client-line alphabet (raw, before sanitising) and the sanitiser
+// mirror for the API tier of C15, which ties both to the real POST/DELETE handlers.
+func VerifClientAlphabet(full bool) []string {
+	var out []string
+	for _, l := range vClientLines(VerifT0, full) {
+		out = append(out, l.Data)
+	}
+	return out
+}
+
+func VerifSanitize(s string) string { return vSanitize(s) }
+
+// VerifLineDefect is C15's per-line oracle ("" = well formed).
+func VerifLineDefect(data string) string { return vLineDefect(data) }
+
+// VerifTexts are the trailing-text values of C15's alphabet.
+func VerifTexts() []string { return append([]string(nil), vTexts...) }
